@@ -595,9 +595,15 @@ class HandHistory(Iterable[State]):
             elif isinstance(operation, CheckingOrCalling):
                 action = f'p{operation.player_index + 1} cc'
             elif isinstance(operation, CompletionBettingOrRaisingTo):
-                action = (
-                    f'p{operation.player_index + 1} cbr {operation.amount}'
-                )
+                amount = str(operation.amount)
+
+                if (
+                        isinstance(operation.amount, Decimal)
+                        and amount.lstrip('-').isdigit()
+                ):
+                    amount += '.0'
+
+                action = f'p{operation.player_index + 1} cbr {amount}'
             elif isinstance(operation, HoleCardsShowingOrMucking):
                 action = (
                     f'p{operation.player_index + 1} sm '
@@ -994,6 +1000,9 @@ class HandHistory(Iterable[State]):
                 cleaned_value = str(value)
             elif isinstance(value, Decimal):
                 cleaned_value = 'inf' if value == inf else str(value)
+
+                if cleaned_value.lstrip('-').isdigit():
+                    cleaned_value += '.0'
             elif isinstance(value, list):
                 cleaned_value = '[' + ', '.join(map(clean_value, value)) + ']'
             elif isinstance(value, dict):
